@@ -2,6 +2,7 @@
 import base64, itertools, json, os, re
 import vlib
 from vlib import hexs
+import session, smtpworld as SW
 
 REQUIRED = ['auth_only_if_backend_accepts', 'no_partial_identity', 'backend_failure_never_authenticates',
             'malformed_never_authenticates', 'authenticated_client_only_via_accept', 'cancel_never_authenticates',
@@ -440,6 +441,90 @@ def diff_env(ctx, name, h, env, cases, pred=None, nontrivial=None):
     return res
 
 
+# ------------------------------------------------------------------------------------------------
+# the whole server: when is AUTH accepted at all (greeting history, control/forcesslauth)
+
+AUTH_LINE = b'AUTH PLAIN ' + base64.b64encode(b'\0alice\0pw')
+
+
+def server_sessions(ctx):
+    """command sequences over greetings, RSET and AUTH on the real server with an accepting checkpassword:
+    compared with the command-loop model (QsmtpModel.Session.step) and judged by the clause itself:
+    AUTH is answered 235 only if the last greeting the server *accepted* was EHLO, and never on a clear-text
+    connection when control/forcesslauth is anything but absent or 0."""
+    b = session.build_qsmtpd(ctx)
+    if not b or not ctx.driver:
+        return
+    rng = ctx.rng
+    vocab = dict(SW.VOCAB)
+    vocab['auth'] = (AUTH_LINE, 'A;ok;%s' % b'alice'.hex())
+    names = ['helo', 'ehlo', 'ehlo_bad', 'helo_bad', 'rset', 'auth', 'noop', 'mail']
+    seqs = [list(s) for n in (1, 2, 3) for s in itertools.product(names, repeat=n)]
+    seqs += [[rng.choice(names) for _ in range(rng.randrange(4, 9))] for _ in range(600 if ctx.quick() else 6000)]
+
+    def mk(extra=None):
+        sc = SW.base_scenario(extra_control=extra)
+        sc.args = ['auth.example', '@CHKPW@', 'chkpw.record', 'x0']
+        return sc
+    lines = [SW.model_line(SW.env_token(), s, vocab=vocab) for s in seqs]
+    models = [SW.parse_model(o) for o in vlib.run_batch(ctx.driver, lines)]
+    scs, meta = [], []
+    for s, m in zip(seqs, models):
+        items, owner = SW.build_items(s, m, vocab=vocab)
+        sc = mk(); sc.items = items
+        scs.append(sc); meta.append((items, owner))
+    rs = session.run_sessions(ctx, b, scs)
+    dis, fails = [], []
+
+    def clause(case, s, obs, forced):
+        esmtp = False
+        for n, o in zip(s, obs):
+            if n.startswith('ehlo') and o['codes'] == ['250']:
+                esmtp = True
+            elif n.startswith('helo') and o['codes'] == ['250']:
+                esmtp = False
+            if n == 'auth' and '235' in o['codes']:
+                if not esmtp:
+                    fails.append((case, str([o['codes'] for o in obs]), 'fails auth-accepted-without-accepted-EHLO'))
+                if forced:
+                    fails.append((case, str([o['codes'] for o in obs]), 'fails auth-accepted-in-clear-text-despite-forcesslauth'))
+    for s, m, r, (items, owner) in zip(seqs, models, rs, meta):
+        case = 'server :: ' + ' '.join(s)
+        if m is None:
+            dis.append((case, 'impl ran', 'model: bad answer')); continue
+        g, obs = SW.observe(r, items, owner, len(s))
+        d = SW.compare(m, obs, r)
+        if d:
+            dis.append((case, d, 'model'))
+        clause(case, s, obs, False)
+        if r.fault:
+            fails.append((case, 'session', 'fails memory-safety-or-crash: ' + r.fault[:150]))
+    vlib.handle_results(ctx, 'server-sessions', 'model QsmtpModel.Session.step (AUTH row, greeting state) vs the real server', dis, fails)
+    ctx.cov['evaluations'] += len(seqs); ctx.cov['traces_validated_against_impl'] += len(seqs)
+    ctx.count('job:server-sessions', len(seqs))
+    # control/forcesslauth: well-formed and malformed contents, clear-text sessions only (judged by the clause alone)
+    fails = []
+    fsl = [b'1\n', b'2\n', b'yes\n', b'true\n', b'+1\n', b'1\n1\n', b'99999999999999999999999\n', b' 1\n', b'1 \n', b'on', b'-1\n', b'1x\n', b'0x1\n']
+    fseqs = [['ehlo', 'auth', 'mail'], ['ehlo', 'noop', 'auth', 'auth'], ['helo', 'ehlo', 'auth'], ['ehlo', 'rset', 'auth', 'noop']]
+    scs, meta = [], []
+    for content in fsl:
+        for s in fseqs:
+            sc = mk({'forcesslauth': content})
+            items = session.lockstep([vocab[n][0] + b'\r\n' for n in s])
+            sc.items = items
+            scs.append(sc); meta.append((content, s))
+    rs = session.run_sessions(ctx, b, scs)
+    for (content, s), r in zip(meta, rs):
+        codes = r.codes()
+        if '235' in codes:
+            fails.append(('forcesslauth %r :: %s' % (content, ' '.join(s)), str(codes), 'fails auth-accepted-in-clear-text-despite-forcesslauth'))
+        if r.fault:
+            fails.append(('forcesslauth %r :: %s' % (content, ' '.join(s)), 'session', 'fails memory-safety-or-crash: ' + r.fault[:150]))
+    ctx.count('job:forcesslauth-sessions', len(scs))
+    ctx.cov['evaluations'] += len(scs); ctx.cov['traces_validated_against_impl'] += len(scs)
+    vlib.handle_results(ctx, 'forcesslauth', 'clause on the real server transcript', [], fails)
+
+
 def run(ctx):
     vlib.lean_prepare(ctx, REQUIRED)
     h, env = build(ctx)
@@ -457,6 +542,7 @@ def run(ctx):
         for k in range(0, len(ncases), SLICE):
             run_nsess(ctx, h, env, ncases[k:k + SLICE])
         diff_env(ctx, 'setup', h, env, ['setup %d %d %d' % (a, d, x) for a in range(1, 6) for d in (0, 1) for x in (0, 1)])
+    server_sessions(ctx)
     if not ctx.quick():
         vlib.leanchecker(ctx, ['QsmtpModel.Props.C09', 'QsmtpModel.Lemmas.Base64', 'QsmtpModel.Lemmas.Auth'])
     return vlib.finish(ctx, assumptions=[
